@@ -167,7 +167,7 @@ def run_polyline(sx, kind, npts):
 
 def jobs(tier, seed):
     js = []
-    halves = list(HALF) if tier == "thorough" else ["74", "135", "254", "-74"]
+    halves = list(HALF) if tier == "thorough" else ["74", "135", "254", "-74", "-225"]
     for axis in AXES:
         for half in halves:
             js.append({"name": f"angle|axis={axis}|{half}", "fn": "run_angle", "params": {"axis": axis, "half": half}})
